@@ -210,8 +210,8 @@ func Convert(value any, typ reflect.Type) (any, error) { //nolint: gocyclo
 		case reflect.Array, reflect.Slice:
 			result := reflect.MakeSlice(typ, 0, rv.Len())
 			for i := range rv.Len() {
-				if rv.Index(i).Interface() == nil {
-					// a nil element stays nil (the zero value of the element type)
+				if ToLiquid(rv.Index(i).Interface()) == nil {
+					// a nil element (or a Drop whose value is nil) stays nil (the zero value of the element type)
 					result = reflect.Append(result, reflect.Zero(typ.Elem()))
 					continue
 				}
